@@ -302,6 +302,44 @@ def run(ctx):
         if bad or sorted(int(x) for x in rows) != [1, 2] + list(range(10, 10 + nw)):
             ctx.violation("free-running stress: %d writers of distinct ids and %d readers; a command failed or an update was lost" % (nw, nr),
                           dict(failed=bad, ids_in_file=[x.decode() for x in rows], cmd="12 x robsd-step -W -f F -i <10+i> -- name=.. & 6 x robsd-step -R -f F -i -1"))
+    # ---- X4: a long critical section: a writer is held between lock and truncate for several seconds
+    # while a second writer and a reader wait; neither may proceed before the holder unlocks
+    for t in range(ctx.n(1, 4)):
+        open(path, "wb").write(c0)
+        hold = 6.5 if t == 0 else rng.choice([2.0, 6.5, 11.0])
+        sA = Sched(ctx, step, path, [("W", 21, full_row(21, "holder", 0))])
+        pt = None
+        for _ in range(6):
+            pt = sA.go(0, 5)
+            if pt in ("read", "exit", None):
+                break
+        t0 = time.time()
+        pB = subprocess.Popen([step, "-W", "-f", path, "-i", "22", "--"] + full_row(22, "waiter", 0), stderr=subprocess.PIPE, env=dict(os.environ, ASAN_OPTIONS="detect_leaks=0"))
+        pR = subprocess.Popen([step, "-R", "-f", path, "-i", "-1"], stdin=subprocess.PIPE, stdout=subprocess.PIPE, stderr=subprocess.PIPE, env=dict(os.environ, ASAN_OPTIONS="detect_leaks=0"))
+        pR.stdin.write(TEMPLATE)
+        pR.stdin.close()
+        pR.stdin = None
+        early = None
+        while time.time() - t0 < hold:
+            if pB.poll() is not None or pR.poll() is not None:
+                early = ("writer" if pB.poll() is not None else "reader", round(time.time() - t0, 2))
+                break
+            time.sleep(0.05)
+        outsA = sA.finish()
+        errB = pB.communicate(timeout=30)[1]
+        outR, errR = pR.communicate(timeout=30)
+        final = open(path, "rb").read()
+        ids = sorted(int(l.split(b",")[0]) for l in final.split(b"\n")[1:] if l)
+        kinds["long-hold"] = kinds.get("long-hold", 0) + 1
+        info = dict(held_at=pt, hold_seconds=hold, finished_early=early, ids_in_file=ids, rcs=[outsA[0][0], pB.returncode, pR.returncode],
+                    stderr=(errB + errR).decode(errors="replace")[-300:],
+                    replay="writer A (ROBSD_VERIF_SYNC) released up to the point after `read` and held there; robsd-step -W -i 22 and robsd-step -R -i -1 started meanwhile")
+        if pt != "read":
+            ctx.disagreement("long hold: the holder did not reach the point after read", info)
+        elif early:
+            ctx.violation("a %s finished after %.2f s while another writer held the step file's lock (held for %.1f s)" % (early[0], early[1], hold), info)
+        elif ids != [1, 2, 21, 22] or outsA[0][0] != 0 or pB.returncode != 0 or pR.returncode != 0:
+            ctx.violation("after a %.1f s critical section the file holds the ids %s (expected 1, 2, 21, 22) / a command failed" % (hold, ids), info)
     ans = ctx.model(reqs) if reqs else []
     for q, a, (final, outs, order), info in zip(reqs, ans, wants, infos):
         w = a.split(" ")
